@@ -9,6 +9,7 @@ def schemas():
     from d42 import optional, schema
     return [
         schema.str.regex(r"[a-z]*-\d+x{2,}(?:ab|c)+?"),
+        schema.str.regex(r"Ref:[A-Za-z]{3,8}/[a-f]+"),
         schema.list(schema.list(schema.list(schema.list(schema.list(schema.int.min(0).max(9))).len(1, 2)).len(1, 2)).len(1, 2)).len(1, 2),
         schema.dict({"a": schema.list(schema.str.alphabet("ab")), optional("b"): schema.float.precision(2),
                      "c": schema.dict({"d": schema.list(schema.any(schema.int, schema.none))}), ...: ...}),
@@ -59,7 +60,8 @@ def run_ops():
 def failing(kind, depth):
     from d42 import fake, schema
     bad = [lambda: schema.str.regex(r"a\sb"), lambda: schema.str.regex(r"(a)\1"), lambda: schema.str.alphabet("").len(2),
-           lambda: schema.any(schema.str.regex(r"(?=a)a"))][kind % 4]()
+           lambda: schema.any(schema.str.regex(r"(?=a)a")), lambda: schema.str.regex(r"(?i)ref:\s+"),
+           lambda: schema.str.regex(r"x(?s:.\s)y"), lambda: schema.str.regex(r"(?i:ab(?=c))c")][kind % 7]()
     s = bad
     for i in range(depth):
         s = [lambda x: schema.list(x).len(1, 2), lambda x: schema.dict({"k": x}), lambda x: schema.any(x),
